@@ -1,6 +1,7 @@
 # -*- coding: utf-8 -*-
 
 import binascii
+import datetime
 import inspect
 
 import six
@@ -42,3 +43,12 @@ def bytes_from_hex_string(hex_string, separator=''):
         six.raise_from(ValueError(*e.args), e)
 
     return binary_data
+
+
+def convert_naive_datetime_to_utc(value):
+    """A datetime without time zone is taken as UTC (as the composers do), so that an object holding it equals
+    the object parsed from its own composition, which carries the zone"""
+    if isinstance(value, datetime.datetime) and value.tzinfo is None:
+        return value.replace(tzinfo=datetime.timezone.utc) if hasattr(datetime, 'timezone') else value
+
+    return value
